@@ -454,6 +454,8 @@ class Gen:
 		name, ops = LEVELS[lvl]
 		usable = d > 0 and (
 			(kind == 'int') or (kind == 'float' and name in ('sum', 'term')) or (kind == 'str' and name in ('sum', 'term')))
+		if usable and kind == 'float' and rng.random() < 0.14:
+			return self.sensitive_chain(name)
 		n = 1
 		if usable:
 			p = {'or': 0.12, 'xor': 0.12, 'and': 0.12, 'shift': 0.15, 'sum': 0.45, 'term': 0.35}[name]
@@ -511,6 +513,32 @@ class Gen:
 			if sp == '' and (t.startswith(('-', '+', '~')) or op in ('<<', '>>')):
 				sp = ' '
 			out = f'{out}{sp}{op}{sp}{t}'
+		return out, acc
+
+	# float literals whose sums / products round differently under another order, another grouping or a compensated algorithm
+	SENS_SUM = ['0.1', '0.2', '0.3', '0.7', '1.1', '2.2', '3.3', '1e16', '1.0', '1e-16', '1e100', '-1e100', '-1e16', '0.1', '0.2', '1', '2']
+	SENS_MUL = ['0.1', '0.2', '0.3', '0.7', '3.0', '10.0', '1e308', '1e-308', '1e200', '1e-200', '1.1', '3', '7']
+
+	def sensitive_chain(self, name: str) -> tuple[str, Any]:
+		"""A flat chain of 3-6 float (and a few int) literals on ONE level whose exact left-to-right IEEE result differs from what a
+		re-associated, reordered or compensated evaluation gives (`0.1 + 0.2 + 0.3`, `1e16 + 1.0 + 1.0`, `1e100 + 1.0 + -1e100`,
+		`0.1 * 3.0 * 1e308`): all `+` / all `*` most of the time, mixed with `-` / `/` otherwise."""
+		rng = self.rng
+		n = rng.choice([3, 3, 4, 5, 6])
+		if name == 'sum':
+			texts = rng.choices(self.SENS_SUM, k=n)
+			ops = ['+'] * (n - 1) if rng.random() < 0.6 else [rng.choice(['+', '-']) for _ in range(n - 1)]
+		else:
+			texts = rng.choices(self.SENS_MUL, k=n)
+			ops = ['*'] * (n - 1) if rng.random() < 0.7 else [rng.choice(['*', '*', '/']) for _ in range(n - 1)]
+		if not any(('.' in t or 'e' in t) for t in texts):
+			texts[0] = '0.1'
+		acc: Any = eval(texts[0], {'__builtins__': {}})  # noqa: S307 - a number literal of the tables above
+		out = texts[0]
+		for op, t in zip(ops, texts[1:]):
+			acc = self.apply(op, acc, eval(t, {'__builtins__': {}}))  # noqa: S307
+			shown = f'({t})' if t.startswith('-') and rng.random() < 0.5 else t
+			out = f'{out} {op} {shown}'
 		return out, acc
 
 	def member_expr(self) -> tuple[str, Any, set[str]]:
